@@ -11,6 +11,7 @@ iterables).
 from __future__ import annotations
 
 import ast
+import collections
 import operator
 from dataclasses import dataclass, field
 from fractions import Fraction as F
@@ -73,6 +74,31 @@ class FuncRef:
     fi: FuncInfo
     bound: object = None  # self
     closure: dict | None = None  # enclosing environment of a nested function
+    raw: bool = False  # the function itself, as handed to its own decorators
+    defaults: tuple | None = None  # (positional defaults, keyword-only defaults) evaluated when the def statement ran
+
+
+class Memoised:
+    """functools.lru_cache(...)(f) / functools.cache(f) as an object: one stored result per key, in the world of the interpreter."""
+
+    def __init__(self, fn):
+        self.fn = fn
+
+    def vp_call(self, interp, args, kwargs, node):
+        return interp.call_through_memo(self, lambda: interp.call(self.fn, list(args), dict(kwargs), node), list(args), kwargs)
+
+    def cache_clear(self):
+        return None
+
+    def cache_info(self):
+        return Opaque('cache_info')
+
+
+class MemoDecorator:
+    """functools.lru_cache(maxsize=..., typed=...): waits for the function"""
+
+    def vp_call(self, interp, args, kwargs, node):
+        return Memoised(args[0])
 
 
 @dataclass
@@ -108,6 +134,7 @@ class Lambda:
     node: ast.Lambda
     env: dict
     mi: ModuleInfo
+    defaults: tuple | None = None  # default values, evaluated when the lambda expression ran
 
 
 class PassThrough(Exception):
@@ -353,12 +380,16 @@ class Interp:
 
     # ------------------------------------------------------------------
     # calling repository functions
-    def call_function(self, fi: FuncInfo, args: list, kwargs: dict, bound=None, closure=None):
+    def call_function(self, fi: FuncInfo, args: list, kwargs: dict, bound=None, closure=None, raw=False, defaults=None):
         if self.stubs and fi.fq in self.stubs:
             return self.stubs[fi.fq](self, list(args), dict(kwargs), bound)
         if self.depth >= self.MAX_DEPTH:
             raise AnalysisError(f'inlining depth exceeded at {fi.fq}')
         decs = fi.decorators()
+        if decs and not raw and bound is None and fi.cls is None and closure is None:
+            wrapped = self.decorated(fi)
+            if wrapped is not None:
+                return self.call(wrapped, list(args), dict(kwargs), self.cur_node)
         if decs and not getattr(self, '_in_memo', None) == fi.fq and self.repo.memoised(fi):
             return self.call_memoised(fi, args, kwargs, bound, closure)
         if bound is None and fi.cls is None and any(d.split('.')[-1] == 'singledispatch' for d in decs) and (args or kwargs):
@@ -366,7 +397,10 @@ class Interp:
             if impl is not fi:
                 return self.call_function(impl, args, kwargs, closure=closure)
         node = fi.node
-        env: dict = dict(closure) if closure else {}
+        # the body runs in its own scope in front of the enclosing function's live scope (a closure reads the variables as they
+        # are now; `nonlocal` writes go there)
+        env: dict = _Scope({}, closure) if closure is not None else {}
+        env['__frame__'] = fi
         a = node.args
         pos = list(a.posonlyargs) + list(a.args)
         args = list(args)
@@ -374,16 +408,18 @@ class Interp:
             args = [bound, *args]
         elif fi.cls is not None and any(d == 'classmethod' for d in decs):
             args = [ClassRef(fi.cls), *args]
-        defaults = list(a.defaults)
-        n_nodef = len(pos) - len(defaults)
         mi = self.repo.module(fi.module)
+        if defaults is None:
+            defaults = self.defaults_of(fi, mi)
+        pos_defaults, kw_defaults = defaults
+        n_nodef = len(pos) - len(pos_defaults)
         for i, p in enumerate(pos):
             if i < len(args):
                 env[p.arg] = args[i]
             elif p.arg in kwargs:
                 env[p.arg] = kwargs.pop(p.arg)
             elif i >= n_nodef:
-                env[p.arg] = self.eval(defaults[i - n_nodef], {}, mi)
+                env[p.arg] = pos_defaults[i - n_nodef]
             else:
                 raise RaiseSignal('TypeError', node, f'{fi.file}:{fi.qualname}: missing argument {p.arg}')
         if len(args) > len(pos):
@@ -393,11 +429,11 @@ class Interp:
                 raise AnalysisError(f'too many arguments calling {fi.fq}')
         elif a.vararg:
             env[a.vararg.arg] = ()
-        for p, d in zip(a.kwonlyargs, a.kw_defaults, strict=True):
+        for p, d in zip(a.kwonlyargs, kw_defaults, strict=True):
             if p.arg in kwargs:
                 env[p.arg] = kwargs.pop(p.arg)
-            elif d is not None:
-                env[p.arg] = self.eval(d, {}, mi)
+            elif d is not _MISSING:
+                env[p.arg] = d
             else:
                 raise RaiseSignal('TypeError', node, f'{fi.file}:{fi.qualname}: missing keyword argument {p.arg}')
         if a.kwarg:
@@ -422,6 +458,24 @@ class Interp:
             self.depth -= 1
             self.call_stack.pop()
 
+    def eval_defaults(self, args: ast.arguments, env, mi) -> tuple:
+        """Default values as the def statement / lambda expression computes them: once, in the defining scope."""
+        return (tuple(self.eval(d, env, mi) for d in args.defaults),
+                tuple(self.eval(d, env, mi) if d is not None else _MISSING for d in args.kw_defaults))
+
+    def defaults_of(self, fi: FuncInfo, mi) -> tuple:
+        """Defaults of a module-level function or method: evaluated once per world, when the module is imported (a mutable default
+        is state shared by all calls)."""
+        a = fi.node.args
+        if not a.defaults and not any(d is not None for d in a.kw_defaults):
+            return (), tuple(_MISSING for _ in a.kw_defaults)
+        cache = self.__dict__.setdefault('_globals', {})
+        key = (fi.module, fi.qualname, '#defaults', id(fi.node))
+        if key not in cache:
+            cache[key] = self.eval_defaults(a, {}, mi)
+            self.track_world(cache[key])
+        return cache[key]
+
     # ------------------------------------------------------------------
     # the world: module-level state that outlives a call (memo tables, lru_cache stores, rebinding of globals)
     def call_memoised(self, fi: FuncInfo, args, kwargs, bound, closure):
@@ -436,6 +490,8 @@ class Interp:
         try:
             key = (tuple(self.memo_key(a) for a in ([bound] if bound is not None else []) + list(args)),
                    tuple((k, self.memo_key(v)) for k, v in kwargs.items()))
+            if bound is None and len(args) == 1 and not kwargs and type(args[0]) in (int, str):
+                key = ('the argument itself', args[0])  # functools: a lone int / str is its own key (f(2) and f(2.0) differ)
             store = self.__dict__.setdefault('_memo', {}).setdefault(fi.fq, {})
             hit = key in store
         except _NoKey:
@@ -447,6 +503,56 @@ class Interp:
         store[key] = val
         self._world_dirty = True
         return val
+
+    def call_through_memo(self, owner, compute, args, kwargs):
+        try:
+            key = (tuple(self.memo_key(a) for a in args), tuple((k, self.memo_key(v)) for k, v in kwargs.items()))
+            if len(args) == 1 and not kwargs and type(args[0]) in (int, str):
+                key = ('the argument itself', args[0])
+            store = self.__dict__.setdefault('_memo', {}).setdefault(id(owner), {})
+            self.__dict__.setdefault('_memo_owners', []).append(owner)  # (keeps the owner alive: its id is not reused)
+            hit = key in store
+        except _NoKey:
+            return compute()
+        if hit:
+            self.memo_hits = getattr(self, 'memo_hits', 0) + 1
+            return store[key]
+        val = compute()
+        store[key] = val
+        self._world_dirty = True
+        return val
+
+    def package_decorator(self, d, mi) -> bool:
+        """Is the decorator expression a function of the package (or a call of one), as opposed to a builtin, an external
+        decorator, a property setter or a method of a registry object (those keep their own handling)?"""
+        f = d.func if isinstance(d, ast.Call) else d
+        if not isinstance(f, ast.Name):
+            return False
+        if f.id in mi.functions:
+            return True
+        imp = mi.imports.get(f.id)
+        if imp is not None and imp[0] == 'rel':
+            r = self.repo.resolve_rel(imp[1], imp[2])
+            return bool(r) and r[0] == 'func'
+        return False
+
+    def decorated(self, fi: FuncInfo):
+        """What the module-level name of `fi` is bound to once its decorators have run (once per world): the decorators that are
+        functions of the package are applied to the function, innermost first.  None without such decorators."""
+        mi = self.repo.module(fi.module)
+        mine = [d for d in fi.node.decorator_list if self.package_decorator(d, mi)]
+        if not mine:
+            return None
+        cache = self.__dict__.setdefault('_globals', {})
+        key = (fi.module, fi.qualname, '#decorated')
+        if key not in cache:
+            val = FuncRef(fi, raw=True)
+            cache[key] = val  # (a decorator that calls the function while decorating gets the function itself)
+            for d in reversed(mine):
+                val = self.call(self.eval(d, {}, mi), [val], {}, d)
+            cache[key] = val
+            self.track_world(val)
+        return cache[key]
 
     def memo_key(self, v):
         """A Python-hashable stand-in for an argument of a memoised function: equal stand-ins iff Python would find the arguments
@@ -491,6 +597,9 @@ class Interp:
             if isinstance(v, Lambda):
                 stack.append(v.env)
                 continue
+            if isinstance(v, Memoised):
+                stack.append(v.fn)
+                continue
             if not isinstance(v, dict | list | set | SObj | SVar) or isinstance(v, GenResult) or id(v) in track:
                 continue
             track[id(v)] = v  # (keeps the object alive: its id is not reused)
@@ -510,11 +619,46 @@ class Interp:
             for x in stored:
                 self.track_world(x)
 
+    def object_id(self, obj):
+        """id(obj): unique among the objects that are alive.  An object that died (end_of_call) gives its id back, and the next
+        new object of the same class gets it - which is what CPython's allocator does, and why an id is no key for a table that
+        outlives the object."""
+        ids = self.__dict__.setdefault('_ids', {'live': {}, 'free': {}, 'next': 140_000_000_000_000})
+        if id(obj) in ids['live']:
+            return ids['live'][id(obj)][0]
+        cls = obj.cls.name if isinstance(obj, SObj) else type(obj).__name__
+        free = ids['free'].get(cls)
+        if free:
+            n = free.pop()
+        else:
+            n = ids['next']
+            ids['next'] += 64
+        ids['live'][id(obj)] = (n, obj, cls)  # (the entry keeps the abstract object alive)
+        return n
+
+    def end_of_call(self):
+        """Between the calls of a history: the objects the caller made for the call and what the call made are garbage now,
+        unless the world (module-level state, memo stores) refers to them."""
+        ids = self.__dict__.get('_ids')
+        if not ids:
+            return
+        world = self.__dict__.get('_gtrack') or {}
+        memo_vals = set()
+        for store in (self.__dict__.get('_memo') or {}).values():
+            for v in store.values():
+                memo_vals.add(id(v))
+        for k, (n, obj, cls) in list(ids['live'].items()):
+            if k not in world and k not in memo_vals:
+                ids['free'].setdefault(cls, []).append(n)
+                del ids['live'][k]
+
     def reset_world(self):
         """Forget everything earlier calls left behind: module-level values are evaluated anew, memo stores are empty."""
         self.__dict__.pop('_globals', None)
         self.__dict__.pop('_gtrack', None)
         self.__dict__.pop('_memo', None)
+        self.__dict__.pop('_memo_owners', None)
+        self.__dict__.pop('_ids', None)
         self._world_dirty = False
 
     # ------------------------------------------------------------------
@@ -547,7 +691,8 @@ class Interp:
         env.setdefault('__global_names__', set()).update(st.names)
 
     def st_Nonlocal(self, st, env, mi):
-        pass  # closures share the enclosing environment by reference here
+        # assignments to these names go to the enclosing function's scope
+        env.setdefault('__nonlocal_names__', set()).update(st.names)
 
     def st_Import(self, st, env, mi):
         # a local `import a.b [as c]`: the name is bound in the function's namespace
@@ -647,6 +792,13 @@ class Interp:
                 self.track_world(val)
                 self._world_dirty = True
                 self.event('module-state-write', t, name=f'{mi.name}:{t.id}')
+            elif isinstance(env, _Scope) and t.id in env.maps[0].get('__nonlocal_names__', ()):
+                for m_ in env.maps[1:]:
+                    if t.id in m_:
+                        m_[t.id] = val
+                        break
+                else:
+                    env.maps[-1][t.id] = val
             else:
                 env[t.id] = val
         elif isinstance(t, ast.Tuple | ast.List):
@@ -820,7 +972,11 @@ class Interp:
                         if h.name:
                             env[h.name] = ev
                         env['__active_exception__'] = ev
-                        self.exec_body(h.body, env, mi)
+                        try:
+                            self.exec_body(h.body, env, mi)
+                        finally:
+                            if h.name:
+                                env.pop(h.name, None)  # `except E as name`: the name is unbound again when the handler ends
                         break
                 else:
                     raise
@@ -992,9 +1148,16 @@ class Interp:
             self._gen_stack[-1].extend(vals)
         return None
 
+    _DECORATORS_WITH_THEIR_OWN_HANDLING = ('contextmanager', 'staticmethod', 'classmethod', 'property', 'overload', 'abstractmethod', 'singledispatch')
+
     def st_FunctionDef(self, st, env, mi):
         fi = FuncInfo(self.call_stack[-1].module if self.call_stack else mi.name, st.name, st)
-        env[st.name] = FuncRef(fi, closure=env)
+        val = FuncRef(fi, closure=env, defaults=self.eval_defaults(st.args, env, mi), raw=bool(st.decorator_list))
+        for d in reversed(st.decorator_list):
+            if ast.unparse(d.func if isinstance(d, ast.Call) else d).split('.')[-1] in self._DECORATORS_WITH_THEIR_OWN_HANDLING:
+                continue
+            val = self.call(self.eval(d, env, mi), [val], {}, d)  # the name is bound to what the decorators make of the function
+        env[st.name] = val
 
     # ------------------------------------------------------------------
     def truth(self, v, node) -> bool:
@@ -1092,7 +1255,51 @@ class Interp:
     def ex_Name(self, e, env, mi):
         if e.id in env and e.id not in env.get('__global_names__', ()):
             return env[e.id]
+        if self.call_stack and env.get('__frame__') is self.call_stack[-1] and e.id in self.locals_of(self.call_stack[-1]) \
+                and e.id not in env.get('__global_names__', ()):
+            # a local variable of the running function that is not bound (not yet, not on this path, or unbound again)
+            raise RaiseSignal('UnboundLocalError', e, self.where(e), (f"cannot access local variable '{e.id}' where it is not associated with a value",))
         return self.global_name(e.id, mi, e)
+
+    def locals_of(self, fi: FuncInfo) -> set:
+        """Names the function binds somewhere in its body (assignment, loop / with / except targets, imports, nested definitions,
+        parameters): its local variables, wherever they are read."""
+        cache = self.__dict__.setdefault('_locals_cache', {})
+        key = id(fi.node)
+        if key not in cache:
+            names = set()
+            a = fi.node.args
+            for p_ in a.posonlyargs + a.args + a.kwonlyargs + ([a.vararg] if a.vararg else []) + ([a.kwarg] if a.kwarg else []):
+                names.add(p_.arg)
+            declared = set()
+
+            def walk(node, top=False):
+                for ch in ast.iter_child_nodes(node):
+                    if isinstance(ch, ast.FunctionDef | ast.AsyncFunctionDef | ast.ClassDef):
+                        names.add(ch.name)
+                        continue  # another scope
+                    if isinstance(ch, ast.Lambda | ast.ListComp | ast.SetComp | ast.DictComp | ast.GeneratorExp):
+                        for sub in ast.walk(ch):
+                            if isinstance(sub, ast.NamedExpr) and isinstance(sub.target, ast.Name):
+                                names.add(sub.target.id)  # the walrus binds in the enclosing function
+                        continue
+                    if isinstance(ch, ast.Name) and isinstance(ch.ctx, ast.Store | ast.Del):
+                        names.add(ch.id)
+                    elif isinstance(ch, ast.ExceptHandler) and ch.name:
+                        names.add(ch.name)
+                    elif isinstance(ch, ast.Import | ast.ImportFrom):
+                        for al in ch.names:
+                            names.add((al.asname or al.name).split('.')[0])
+                    elif isinstance(ch, ast.Global | ast.Nonlocal):
+                        declared.update(ch.names)
+                    elif isinstance(ch, ast.MatchAs | ast.MatchStar) and ch.name:
+                        names.add(ch.name)
+                    elif isinstance(ch, ast.MatchMapping) and ch.rest:
+                        names.add(ch.rest)
+                    walk(ch)
+            walk(fi.node)
+            cache[key] = (names - declared, fi.node)  # (the node is kept alive: its id is the key)
+        return cache[key][0]
 
     def global_name(self, name: str, mi: ModuleInfo, node):
         if name in mi.functions:
@@ -1144,6 +1351,8 @@ class Interp:
 
     def getattr(self, obj, attr: str, node):
         if isinstance(obj, ExtRef):
+            if attr in ('__name__', '__qualname__') and obj.path.startswith('builtins.'):
+                return obj.path.split('.')[-1]
             path = f'{obj.path}.{attr}'
             return self.model.ext_attr(self, path, node)
         if isinstance(obj, ModuleRef):
@@ -1300,10 +1509,15 @@ class Interp:
             seen.add((c.module, c.name))
             cmi = self.repo.module(c.module)
             for st in c.node.body:
-                if isinstance(st, ast.Assign) and any(isinstance(t, ast.Name) and t.id == attr for t in st.targets):
-                    return self.eval(st.value, {}, cmi)
-                if isinstance(st, ast.AnnAssign) and isinstance(st.target, ast.Name) and st.target.id == attr and st.value is not None:
-                    return self.eval(st.value, {}, cmi)
+                if (isinstance(st, ast.Assign) and any(isinstance(t, ast.Name) and t.id == attr for t in st.targets)) or \
+                        (isinstance(st, ast.AnnAssign) and isinstance(st.target, ast.Name) and st.target.id == attr and st.value is not None):
+                    # the class body runs once: every access sees the same object (a mutable class attribute is shared state)
+                    cache = self.__dict__.setdefault('_globals', {})
+                    key = (c.module, 'class ' + c.name, attr)
+                    if key not in cache:
+                        cache[key] = self.eval(st.value, {}, cmi)
+                        self.track_world(cache[key])
+                    return cache[key]
             for b in c.bases:
                 b = b.split('[')[0]
                 if b in cmi.classes:
@@ -1401,7 +1615,7 @@ class Interp:
 
     def call(self, fn, args, kwargs, node):
         if isinstance(fn, FuncRef):
-            return self.call_function(fn.fi, args, kwargs, bound=fn.bound, closure=fn.closure)
+            return self.call_function(fn.fi, args, kwargs, bound=fn.bound, closure=fn.closure, raw=fn.raw, defaults=fn.defaults)
         if isinstance(fn, ClassRef):
             return self.construct(fn.ci, args, kwargs, node)
         if isinstance(fn, ExtRef):
@@ -1447,9 +1661,24 @@ class Interp:
         if type(fn).__name__ == '_Partial':
             return self.call(fn.fn, [*fn.args, *args], {**fn.kwargs, **kwargs}, node)
         if isinstance(fn, Lambda):
-            lenv = dict(fn.env)
-            for p, a in zip(fn.node.args.args, args, strict=False):
+            lenv = _Scope({}, fn.env)  # the enclosing scope is read as it is now
+            la = fn.node.args
+            params = la.posonlyargs + la.args
+            if fn.defaults is not None:
+                pd, kd = fn.defaults
+                for p, dv in zip(params[len(params) - len(pd):], pd, strict=True):
+                    lenv[p.arg] = dv
+                for p, dv in zip(la.kwonlyargs, kd, strict=True):
+                    if dv is not _MISSING:
+                        lenv[p.arg] = dv
+            for p, a in zip(params, args, strict=False):
                 lenv[p.arg] = a
+            if la.vararg is not None:
+                lenv[la.vararg.arg] = tuple(args[len(params):])
+            if la.kwarg is not None:
+                known = {p.arg for p in params + la.kwonlyargs}
+                lenv[la.kwarg.arg] = {k: v for k, v in kwargs.items() if k not in known}
+                kwargs = {k: v for k, v in kwargs.items() if k in known}
             lenv.update(kwargs)
             return self.eval(fn.node.body, lenv, fn.mi)
         if isinstance(fn, SObj):
@@ -1752,11 +1981,15 @@ class Interp:
         return Opaque('formatted value')
 
     def ex_Lambda(self, e, env, mi):
-        return Lambda(e, env, mi)
+        a = e.args
+        return Lambda(e, env, mi, self.eval_defaults(a, env, mi) if (a.defaults or any(d is not None for d in a.kw_defaults)) else None)
 
     def ex_NamedExpr(self, e, env, mi):
         v = self.eval(e.value, env, mi)
-        self.assign(e.target, v, env, mi)
+        scope = env
+        while isinstance(scope, _Scope) and scope.comprehension:
+            scope = scope.maps[1] if len(scope.maps) == 2 else _Scope(*scope.maps[1:])  # the walrus binds in the enclosing function
+        self.assign(e.target, v, scope, mi)
         return v
 
     def ex_Starred(self, e, env, mi):
@@ -1776,11 +2009,12 @@ class Interp:
             if isinstance(itv, Opaque):
                 raise _OpaqueElts()
             for v in self.iterate(itv, g.iter):
-                sub = dict(env)
-                self.assign(g.target, v, sub, mi)
-                if all(self.truth(self.eval(c, sub, mi), c) for c in g.ifs):
-                    rec(i + 1, sub)
-        rec(0, dict(env))
+                self.assign(g.target, v, env, mi)
+                if all(self.truth(self.eval(c, env, mi), c) for c in g.ifs):
+                    rec(i + 1, env)
+        # one scope for the whole comprehension, on top of the live enclosing scope: a lambda made in it sees the loop variable
+        # as it is when the lambda is called (the last value, once the comprehension has finished)
+        rec(0, _CompScope({}, env))
 
     def _first_iter(self, e, env, mi):
         """The first iterable of a comprehension, evaluated exactly once."""
@@ -1810,8 +2044,33 @@ class Interp:
                         self.assign(g.target, v, sub, mi)
                         yield self.eval(e.elt, sub, mi)
                 return lazy()
-        r = self.ex_ListComp(e, env, mi, itv)
-        return GenResult(r) if isinstance(r, list) else r  # an iterator (eagerly evaluated): next() consumes it
+        if isinstance(itv, Opaque):
+            return Opaque('comprehension over ⊤')
+        # the first iterable is evaluated now, the rest when the generator is consumed (next() / a loop consume it)
+        scope = _CompScope({}, env)
+
+        def produce(i):
+            if i == len(e.generators):
+                yield self.eval(e.elt, scope, mi)
+                return
+            g = e.generators[i]
+            src = itv if i == 0 else self.eval(g.iter, scope, mi)
+            if isinstance(src, Opaque):
+                raise AnalysisError(f'generator over an unknown sequence at {self.where(e)}')
+            for v in self.pulling(src, g.iter):
+                self.assign(g.target, v, scope, mi)
+                if all(self.truth(self.eval(c, scope, mi), c) for c in g.ifs):
+                    yield from produce(i + 1)
+        return LazyGen(produce(0))
+
+    def pulling(self, v, node):
+        """Iterate `v` the way a for loop does: a one-shot iterator gives up one element per step (what is not asked for stays in
+        it), anything else is read from a snapshot."""
+        if isinstance(v, GenResult):
+            while v:
+                yield v.pop(0)
+            return
+        yield from self.iterate(v, node)
 
     def ex_SetComp(self, e, env, mi):
         first = self._first_iter(e, env, mi)
@@ -1842,6 +2101,76 @@ _MISSING = object()
 
 class _OpaqueElts(Exception):
     pass
+
+
+class _Scope(collections.ChainMap):
+    """A scope in front of the enclosing one, which is read live: the body of a closure, a comprehension, a generator expression."""
+
+    comprehension = False
+
+    def copy(self):
+        return dict(self)
+
+
+class _CompScope(_Scope):
+    comprehension = True
+
+
+class LazyGen(GenResult):
+    """A generator expression: its body runs as it is consumed, one element at a time, with the variables of the enclosing
+    scope as they are then; a one-shot source it reads from is consumed only as far as the reader goes."""
+
+    def __init__(self, gen):
+        super().__init__()
+        self._gen = gen  # a Python generator producing the elements
+
+    def _pull(self) -> bool:
+        g = self.__dict__.get('_gen')
+        if g is None:
+            return False
+        try:
+            list.append(self, next(g))
+            return True
+        except StopIteration:
+            self._gen = None
+            return False
+
+    def _force(self):
+        while self._pull():
+            pass
+
+    def __iter__(self):
+        self._force()
+        return list.__iter__(self)
+
+    def __len__(self):
+        self._force()
+        return list.__len__(self)
+
+    def __bool__(self):
+        return list.__len__(self) > 0 or self._pull()
+
+    def __getitem__(self, k):
+        self._force()
+        return list.__getitem__(self, k)
+
+    def __delitem__(self, k):
+        self._force()
+        return list.__delitem__(self, k)
+
+    def pop(self, *a):
+        if a == (0,) and list.__len__(self) == 0:
+            self._pull()
+        elif a != (0,):
+            self._force()
+        return list.pop(self, *a)
+
+    def clear(self):
+        self._gen = None
+        return list.clear(self)
+
+    def __repr__(self):
+        return '<generator>' if self.__dict__.get('_gen') is not None else list.__repr__(self)
 
 
 class _PyBound:
